@@ -63,6 +63,8 @@ BEH = {
     'add':      [('add', 'extra')],
     'hidden':   [('add', '_h')],
     'empty1':   [('empty_at', [1])],
+    'addat13':  [('add_at', 'extra', [1, 3])],       # topic set varies from id to id
+    'dropat2':  [('drop_at', 'aux', [2])],
 }
 
 
@@ -161,6 +163,20 @@ def c01_family(tier, n):
         for p2 in [0, 60, 150]:
             out.append(scn(f'join2chain/{beh}/p{p2}', [src(n, 's1', required='r'), relay('r', ['s1'], beh, required='snk'),
                                                          src(n, 's2', period=p2, required='snk'), sink('snk', ['r', 's2;main>other'])]))
+
+    # topic sets that vary from id to id (a topic only on some ids), explicit and subscribe-all consumers
+    for sub in ['mid;main;extra', 'mid', 'mid;extra>x;main']:
+        out.append(scn(f'chain3var/addat13/{sub}', [src(n + 1, required='mid'), relay('mid', ['src'], 'addat13', required='snk'), sink('snk', [sub])]))
+
+    for sub in ['mid;main;aux', 'mid', 'mid;aux']:
+        out.append(scn(f'chain3var/dropat2/{sub}', [src(n + 1, required='mid', topics=['main', 'aux']), relay('mid', ['src'], 'dropat2', required='snk'), sink('snk', [sub])]))
+
+    # ... combined with a sibling source that skips an id (a partial set of the older id must not survive the adoption of a newer one)
+    for beh in ['skip1', 'skip02']:
+        for s2 in ['s2;aux;main>other', 's2;main>other;aux', 's2;*']:
+            out.append(scn(f'join2var/{beh}/{s2}', [src(n + 1, 's1', required='r'), relay('r', ['s1'], beh, required='snk'),
+                                                     {**src(n + 1, 's2', required='snk', topics=['aux', 'main']), 'topics_at': {'2': ['main'], '1': ['main', 'aux']}},
+                                                     sink('snk', ['r;main>m1' if s2 == 's2;*' else 'r', s2])]))
 
     # rejoin with an ephemeral side consumer on the splitter
     for side in ['?', '??']:
@@ -323,7 +339,8 @@ def c02_restart_family(tier):
 
 def c02_content_family(tier):
     out    = []
-    tsets  = [['main'], ['a'], ['_h'], ['main', 'a'], ['main', '_h'], ['a', '_h'], ['main', 'a', '_h']]
+    tsets  = [['main'], ['a'], ['_h'], ['main', 'a'], ['main', '_h'], ['a', '_h'], ['main', 'a', '_h'],
+              ['ab', 'a'], ['a', 'ab', 'main'], ['main_x', 'main', '_hh', '_h']]       # names that are prefixes of one another
     subs   = ['src', 'src;', 'src;a', 'src;a>b', 'src;>b', 'src;_h', 'src;*', 'src;a;_h>x']
     n      = 6
 
@@ -456,6 +473,26 @@ def c07_family(tier, n):
     out.append(scn('bal2/slow-splitter', balance(n, (0, 40), split_period=40)))
     out.append(scn('bal2/watcher', balance(n, (40, 0), watcher=True)))
     out.append(scn('bal2/slow-joiner', balance(n, (0, 40), join_ops=[('slow', 60)])))
+
+    # a worker that exits cleanly (CLOSE) while the other one still holds an older frame: nothing stale may surface afterwards
+    for speeds in [(0, 130), (130, 0), (40, 130)]:
+        for who, k in [(0, 1), (0, 2), (1, 1)]:
+            fs = balance(n + 2, speeds)
+
+            for f in fs:
+                f['run'] = {'prop_exit': 'none', 'obey_exit': 'none'}
+
+            fs[1 + who]['faults'] = [{'at': 'process', 'k': k, 'what': 'exit'}]
+            out.append(scn(f'bal2-exit/{speeds}/w{who}@{k}', fs))
+
+            # ... with a slow joiner, so that the CLOSE of the exiting worker and a stale frame of the other one wait side by side
+            fs = balance(n + 2, speeds, join_ops=[('slow', 250)])
+
+            for f in fs:
+                f['run'] = {'prop_exit': 'none', 'obey_exit': 'none'}
+
+            fs[1 + who]['faults'] = [{'at': 'process', 'k': k, 'what': 'exit'}]
+            out.append(scn(f'bal2-exit-slowjoin/{speeds}/w{who}@{k}', fs))
 
     for s in out:
         s['quiet_ms'] = 600
